@@ -29,6 +29,7 @@ func main() {
 	commands["render"] = cmdRender
 	commands["gen"] = cmdGen
 	commands["lex"] = cmdLex
+	commands["strcases"] = cmdStrCases
 	commands["total"] = cmdTotal
 	commands["worker"] = cmdWorker
 	commands["edits"] = cmdEdits
